@@ -6,7 +6,7 @@ from vt.core import R, rng_for, dn, mat, mk_tt, rank_vectors, snap, unchanged, m
 
 ID = 'C01'
 LEVEL = 'exploration'
-RULE = ('complete Cartesian enumeration of order x row_dims x col_dims x rank vector of A x rank vector of B x dtype pair '
+RULE = ('complete Cartesian enumeration of order x row_dims x col_dims x rank vector of A x rank vector of B x dtype-pattern pair (real, complex, mixed real/complex cores) '
         'x value family; per point all of: full, matricize, element at ALL index tuples, +, -, scalar*T, T*scalar, '
         '@/dot (operator.operator, operator.vector, scalar-returning), transpose (all core subsets, conjugate), conj, '
         'copy, norm(2), norm(1), residual_error (all three rank vectors), isoperator, zeros/ones/eye/unit(all '
@@ -22,10 +22,10 @@ TOL = 1e-10
 
 def space(tier):
     if tier == 'quick':
-        return {'orders': [1, 2, 3], 'dims': [1, 2], 'ranksA': [1, 2], 'ranksB': [1, 2], 'dtypes': 'all 4 pairs',
+        return {'orders': [1, 2, 3], 'dims': [1, 2], 'ranksA': [1, 2], 'ranksB': [1, 2], 'dtypes': 'all 16 pairs of per-core dtype patterns {real, complex, core0 real + rest complex, only core0 complex}',
                 'fam': ['gauss', 'int']}
     return {'orders<=3': {'dims': [1, 2, 3], 'ranksA': [1, 2, 3], 'ranksB': [1, 2, 3]},
-            'order4': {'dims': [1, 2], 'ranksA': [1, 2, 3], 'ranksB': [1, 2]}, 'dtypes': 'all 4 pairs',
+            'order4': {'dims': [1, 2], 'ranksA': [1, 2, 3], 'ranksB': [1, 2]}, 'dtypes': 'all 16 pairs of per-core dtype patterns {real, complex, core0 real + rest complex, only core0 complex}',
             'fam': ['gauss', 'int']}
 
 
@@ -39,7 +39,7 @@ def cases(tier):
             for cols in itertools.product(dims, repeat=d):
                 for rA in rank_vectors(d, ra):
                     for rB in rank_vectors(d, rb):
-                        for cA, cB in itertools.product([False, True], repeat=2):
+                        for cA, cB in itertools.product([False, True, 'tail', 'head'] if d > 1 else [False, True], repeat=2):
                             for fam in ('gauss', 'int'):
                                 yield {'d': d, 'rows': list(rows), 'cols': list(cols), 'rA': rA, 'rB': rB, 'cA': cA,
                                        'cB': cB, 'fam': fam}
